@@ -258,10 +258,16 @@ def w_spec_vectors(_arg):
     ref_must('RFC4493 K1', k1, H(RFC4493_K1))
     ref_must('RFC4493 K2', k2, H(RFC4493_K2))
     # builtin sub-key derivation observed directly
-    cm = attempt(lambda: (lambda o: (o._k1, o._k2))(bes['builtin']._CMAC(key=key, msg=b'')))
-    st.case(('cmac-subkeys',))
-    st.add('vectors', 'RFC4493 subkeys')
-    compare3(st, 'spec_vector', {'vector': 'RFC4493 subkeys K1,K2'}, {'kind': 'subkeys', 'key': key.hex(), 'k1': k1.hex(), 'k2': k2.hex()}, (k1, k2), {'builtin': cm}, 'CMAC sub-keys')
+    # (an internal of the fallback, observed when it exists under this name; the MACs below are what counts)
+    try:
+        cm = ('ok', (lambda o: (o._k1, o._k2))(bes['builtin']._CMAC(key=key, msg=b'')))
+    except (AttributeError, TypeError):
+        cm = None
+        st.count('builtin_cmac_subkeys_not_observable')
+    if cm is not None:
+        st.case(('cmac-subkeys',))
+        st.add('vectors', 'RFC4493 subkeys')
+        compare3(st, 'spec_vector', {'vector': 'RFC4493 subkeys K1,K2'}, {'kind': 'subkeys', 'key': key.hex(), 'k1': k1.hex(), 'k2': k2.hex()}, (k1, k2), {'builtin': cm}, 'CMAC sub-keys')
     msg = H(RFC4493_MSG)
     for n, mac in CMAC_VECTORS:
         mac = H(mac)
